@@ -259,10 +259,18 @@ func writeVia(fs FS, path string, wp string, chunks [][]byte) error {
 	if err != nil {
 		return err
 	}
+	// like io.Copy, the caller owns ONE scratch buffer: every chunk is written from it and the buffer is
+	// overwritten as soon as Write has returned (io.Writer: "implementations must not retain p"), so a
+	// writer that keeps the slice instead of its bytes stores garbage
+	scratch := make([]byte, 0, 64)
 	for _, c := range chunks {
-		if _, err = w.Write(c); err != nil {
+		scratch = append(scratch[:0], c...)
+		if _, err = w.Write(scratch); err != nil {
 			w.Close()
 			return err
+		}
+		for i := range scratch {
+			scratch[i] ^= 0xa5
 		}
 	}
 	return w.Close()
